@@ -5,7 +5,7 @@
    C05_table_is_reference (re-checked every run) and by the conformance correspondence (harness). *)
 From Coq Require Import ZArith List Bool String.
 From Verif Require Import Lib.Sx Lib.PyStr Lib.Facts Model.Session Gen.Dispatch.
-From Verif Require Import Proofs.GenTable Proofs.SessionGuard Proofs.SessionLogin Proofs.SessionShape.
+From Verif Require Import Proofs.GenTable Proofs.RefFootprints Proofs.SessionGuard Proofs.SessionLogin Proofs.SessionShape.
 Import ListNotations.
 Open Scope list_scope.
 
@@ -18,7 +18,10 @@ Theorem C05_table_is_reference :
   d_reset_exempt dispatcher = ["retr"; "stor"; "appe"]%string /\
   d_unknown_code dispatcher = "502"%string /\ d_false_ends dispatcher = true /\
   d_task_except dispatcher = [("errors.PathIOError", ["response:451"; "continue"])]%string /\
-  pathperm_first_flag_only = true.
+  pathperm_first_flag_only = true /\
+  (* every handler body still has the footprint (reply codes, return values, backend calls, connection
+     attributes set/deleted) and every worker the shape the hand-written model was transcribed from *)
+  footprints_match = true /\ workers_match = true.
 Proof. vm_compute. repeat split. Qed.
 Print Assumptions C05_table_is_reference.
 
